@@ -4,7 +4,21 @@
    first getopt call (reset, GETOPT_DUMMY), the registration pass of the GETOPT_SWITCH
    (getopt_setrange, getopt_register_opt per label in line order, getopt_register_missing),
    then the loop  while ((ch = getopt()) != NULL) { getopt_lookup(ch) -> label }.
-   spec = reference parser written from the header comment (Util/Getopt.v, section SPEC). *)
+   run_switch lay argv = the same with the registration pass as the macros of getopt.h perform it
+   on a switch statement whose labels are laid out over source lines as [lay] says (line offset 0
+   = the GETOPT_SWITCH line itself = dispatch slot 0; first probe on the line before it).
+   spec = reference parser written from the header comment (Util/Getopt.v, section SPEC).
+
+   TABLE RESTRICTION of the main theorem (C18_getopt_eq_spec, C18_switch_eq_spec and M2):
+   wf_table t = every name is "-x" or "--long", NUL-free, NO '=' INSIDE A LONG NAME, and the
+   names are pairwise DISTINCT.  getopt_register_opt enforces the shape and the distinctness (it
+   DIEs otherwise: C18_registration_enforces_wf) but it does NOT refuse '=' inside a long name.
+   For such tables -- and for every table the registration pass accepts, [reg_accepts], spelled out
+   in C18_reg_accepts_meaning -- the parse follows searchopt's rule instead of the documented one:
+   the FIRST label in line order whose name is a prefix of the word followed by the end of the word
+   or '=' wins (C18_getopt_eq_coded_spec; example ex_eq_in_name in Util/GetoptProofs.v: with
+   labels "--a=b" then "--a", the word --a=b is the option "--a=b", not --a with value b).
+   A table that is not accepted never parses anything: the registration pass aborts. *)
 From Coq Require Import NArith List.
 From LCP Require Import Base.CheckedMem Util.Getopt Util.GetoptSearch Util.GetoptSteps Util.GetoptProofs.
 Import ListNotations.
@@ -19,16 +33,40 @@ Theorem C18_getopt_eq_spec :
 Proof. exact getopt_eq_spec. Qed.
 Print Assumptions C18_getopt_eq_spec.
 
-(* the same for every table getopt_register_opt accepts (names may contain '=', need not be
-   distinct up to '='): either registration is refused (DIE -> AssertFail) or the run equals the
-   reference parser with searchopt's first-prefix-match resolution *)
+(* the same for every table of NUL-free names, with the abort case stated exactly: if the
+   registration pass accepts the table (names may contain '=', need not be distinct up to '=') the
+   run equals the reference parser with searchopt's first-prefix-match resolution; if it does not,
+   the run aborts in the registration pass (DIE) -- and these are the only two outcomes *)
 Theorem C18_getopt_eq_coded_spec :
   forall s0 (t : table) (miss : option nat) (argv : list str),
     g_optreset s0 = true -> names_nn t -> wf_miss t miss -> Forall no_nul argv ->
-    run_from s0 t miss argv = AssertFail \/
-    exists s', run_from s0 t miss argv = Ok (spec_coded t (is_some miss) argv, s').
-Proof. exact run_coded. Qed.
+    (reg_accepts t ->
+     exists s', run_from s0 t miss argv = Ok (spec_coded t (is_some miss) argv, s')) /\
+    (~ reg_accepts t -> run_from s0 t miss argv = AssertFail).
+Proof. exact run_coded_exact. Qed.
 Print Assumptions C18_getopt_eq_coded_spec.
+
+(* what "accepted" means (reg_accepts is the computable acceptb [] t = true): every name is "-x" or
+   "--long", and for every label searchopt's first-prefix-match finds nothing among the labels
+   before it *)
+Theorem C18_reg_accepts_meaning :
+  forall (t : table),
+    reg_accepts t <->
+    (names_valid t /\
+     forall pre os h rest, t = pre ++ Some (os, h) :: rest -> first_match pre os = None).
+Proof. exact reg_accepts_spec. Qed.
+Print Assumptions C18_reg_accepts_meaning.
+
+(* well-formed tables are accepted; among tables without '=' in long names nothing else is *)
+Theorem C18_wf_table_accepted :
+  forall (t : table), wf_table t -> reg_accepts t.
+Proof. exact wf_table_accepted. Qed.
+Print Assumptions C18_wf_table_accepted.
+
+Theorem C18_accepted_is_wf_without_eq :
+  forall (t : table), names_nn t -> Forall eq_free (names t) -> (reg_accepts t <-> wf_table t).
+Proof. exact reg_accepts_wf. Qed.
+Print Assumptions C18_accepted_is_wf_without_eq.
 
 (* on well-formed tables the two resolutions coincide *)
 Theorem C18_coded_spec_is_documented_spec :
@@ -79,3 +117,41 @@ Theorem C18_registration_enforces_wf :
     ((exists s', start s0 t miss argv = Ok s') <-> wf_table t).
 Proof. exact registration_enforces_wf. Qed.
 Print Assumptions C18_registration_enforces_wf.
+
+(* ---- compiled GETOPT_SWITCH statements: the result does not depend on the source layout ---- *)
+(* the indexing pass of the macros (probe of the line before the switch -> getopt_setrange, then
+   one probe per source line, GETOPT_DEFAULT's line ends it), for EVERY layout -- a label on the
+   GETOPT_SWITCH line itself (slot 0), blank lines, multi-line bodies, GETOPT_MISSING_ARG anywhere
+   or absent -- is getopt_setrange + one registration per label in line order *)
+Theorem C18_switch_pass_is_registration :
+  forall s (lay : layout), index_pass s lay = setup s (table_of lay) (miss_of lay).
+Proof. exact index_pass_eq_setup. Qed.
+Print Assumptions C18_switch_pass_is_registration.
+
+(* M1 for switch statements: no hypothesis on the layout beyond its label set being well-formed
+   (GETOPT_MISSING_ARG's slot is free by construction) *)
+Theorem C18_switch_eq_spec :
+  forall (lay : layout) (argv : list str),
+    wf_table (table_of lay) -> Forall no_nul argv ->
+    run_switch lay argv = Ok (spec (table_of lay) (is_some (miss_of lay)) argv).
+Proof. exact switch_eq_spec. Qed.
+Print Assumptions C18_switch_eq_spec.
+
+(* two layouts of the same option set (same name -> takes-an-argument map, GETOPT_MISSING_ARG present
+   in both or in neither) give the same events and the same final optind on every argv *)
+Theorem C18_switch_layout_independent :
+  forall (l1 l2 : layout) (argv : list str),
+    wf_table (table_of l1) -> wf_table (table_of l2) ->
+    (forall n, lookup (table_of l1) n = lookup (table_of l2) n) ->
+    is_some (miss_of l1) = is_some (miss_of l2) -> Forall no_nul argv ->
+    run_switch l1 argv = run_switch l2 argv.
+Proof. exact switch_layout_independent. Qed.
+Print Assumptions C18_switch_layout_independent.
+
+(* the first probe is what this rests on: a pass started on the GETOPT_SWITCH line itself registers
+   a label on that line before getopt_setrange has allocated the table (assert(opts != NULL)) *)
+Theorem C18_switch_first_probe_needed :
+  forall s os h (lay : layout), g_opts s = None ->
+    index_pass_gen false s (LOpt os h :: lay) = AssertFail.
+Proof. exact first_probe_needed. Qed.
+Print Assumptions C18_switch_first_probe_needed.
